@@ -39,6 +39,8 @@ def run_one(patch: str, prop: str, tier: str, runs: int | None, workers: int) ->
         kinds = sorted(set(re.findall(r"kind=(\S+)", p.stdout)))
         # replay files written against a mutant are not kept
         for m in re.findall(r"replay=(\S+)", p.stdout):
+            if os.sep + "replays" + os.sep not in m:
+                continue        # a committed witness reported as a regression: never delete
             try:
                 os.remove(m)
             except OSError:
